@@ -224,6 +224,21 @@ func runC13Case(w *caseWriter, id string, d pkgDesc, st *c13Stats, rng *rand.Ran
 		}
 		w.line("oseq %s %d", xs(f), b2i(tokensOf(info.Overridables) == want[f]))
 	}
+	// the same with a packaging between the Gets: what a packager does to the settings it was given must not reach
+	// the settings the configuration yields next
+	if d.Formats != nil {
+		built, _ := fresh()
+		for _, f := range allFormats {
+			packageShared(built, f)
+			for _, g := range formats {
+				info, err := built.Get(g)
+				if err != nil {
+					continue
+				}
+				w.line("oseq %s %d", xs(g), b2i(tokensOf(info.Overridables) == want[g]))
+			}
+		}
+	}
 	// a package never contains an entry addressed to another packager: removing those entries from the
 	// configuration changes no byte of the package
 	if d.Formats != nil {
@@ -351,6 +366,9 @@ func cmdC13(tier string, seed int64, out, statsOut, replay string) {
 		"name: x\narch: amd64\nversion: 1.0.0\numask: 0o27\noverrides:\n  deb:\n    depends: [a]\n",
 		"name: x\narch: amd64\nversion: 1.0.0\ncontents:\n  - {src: a, dst: /a, packager: deb}\n  - {src: b, dst: /b}\n  - {src: c, dst: /c, packager: rpm}\noverrides:\n  rpm:\n    depends: [r]\n",
 		"name: x\narch: amd64\nversion: 1.0.0\nipk:\n  essential: true\n  fields: {A: base, B: base}\noverrides:\n  ipk:\n    ipk:\n      essential: false\n      fields: {B: over, C: over}\n",
+		// an override block that spells a custom field with an empty value, and a key id with an empty value
+		"name: x\narch: amd64\nversion: 1.0.0\ndeb:\n  fields: {A: base, B: base}\noverrides:\n  deb:\n    deb:\n      fields: {B: \"\", C: over}\n",
+		"name: x\narch: amd64\nversion: 1.0.0\ndeb:\n  signature:\n    key_id: DEBBASEKEY\nrpm:\n  signature:\n    key_id: RPMBASEKEY\napk:\n  signature:\n    key_id: APKBASEKEY\noverrides:\n  deb:\n    deb:\n      signature:\n        key_id: \"\"\n  rpm:\n    rpm:\n      signature:\n        key_id: \"\"\n  apk:\n    apk:\n      signature:\n        key_id: \"\"\n",
 	} {
 		runC13Case(w, fmt.Sprintf("edge-%d", i), pkgDesc{YAML: d}, st, rng)
 	}
